@@ -21,7 +21,7 @@ def run(ctx):
         raise MachineryError("driver delivered no write faults: vacuous")
     # Marshal vs MarshalWrite vs MarshalEncode with omitempty members that are written and then
     # retracted, the padding before them swept across every flush threshold (75% of 64..4096)
-    sw = ctx.tv("arshal", "Trace_Arshal", {"seed": ctx.seed, "mode": "c07sweep", "step": 3 if ctx.quick else 1, "maxpad": 5200 if ctx.quick else 9000},
+    sw = ctx.tv("arshal", "Trace_Arshal", {"seed": ctx.seed, "mode": "c07sweep", "step": 5 if ctx.quick else 1, "maxpad": 5200 if ctx.quick else 9000},
                 consts={"MaxD": 10000})
     ctx.part("pad_sweep", **{k: v for k, v in sw.items() if not k.startswith("_")})
     ctx.assumptions += ["the flush policy itself is left open: only 'prefix of the fault-free output' and 'flushed at depth 0' are required"]
